@@ -114,6 +114,10 @@ def run(ctx, rep):
         for row in sorted(got - SPEC):
             rep.violated('R1', 'extra-row/%s/%s' % (row[0], row[1]), where, 'row %s is not in the spec\'s layer path table' % (row,))
         rep.check(len(coll_seen[1]) == 7, 'R1', 'table/size', where, 'exactly 7 rows', '%d rows (duplicates or extras)' % len(coll_seen[1]))
+    # ---- R6: the entries inserted above take effect through the Prepend / Delimiter arms of the delta application --
+    from . import C04
+    rep.rule('R6', 'Prepend / Delimiter arms of the delta application (shared with C04.R5): value [+ delimiter + previous if non-empty], on every path')
+    C04.arm_rules(ctx, rep, rule='R6', only=('Prepend', 'Delimiter', 'delimiter-lookup'))
     # ---- R4 ----------------------------------------------------------------------------------------
     f, table, info = L.apply_scope_table(prog, sl)
     for variant, seq in table.items():
